@@ -19,6 +19,8 @@ import contextlib
 import io
 import itertools
 import json
+import os
+import shutil
 import time
 import warnings
 from fractions import Fraction
@@ -424,18 +426,21 @@ def predicate(code, case, res=None, want=None, full=True):
         res = code.inf(off, W, locks)
     kind, P = res[0], res[1]
     fails = []
+    if len(res) > 4 and res[4]:
+        # input purity: the matrix handed to inf_retis is the sampler's live state (|state| and _locks)
+        fails.append(("C02:input-modified", res[4]))
     if want is None:
         want = oracle(W, locks)
     if want is None:
-        return fails           # not in the family (perm of the idle block is 0): no claim
+        return fails           # not in the family (perm of the idle block is 0): no claim on the values
     if kind == "mc":
         # Monte-Carlo branch: outside exactness - but only blocks larger than 12 may go there
         dims = res[3][1]
         if any(d <= 12 for d in dims) or not dims:
-            return [("C02:monte-carlo-on-small-block", f"random_prob used for blocks of size {dims} (exact code path expected up to 12)")]
+            return fails + [("C02:monte-carlo-on-small-block", f"random_prob used for blocks of size {dims} (exact code path expected up to 12)")]
         return fails
     if kind != "ok":
-        return [("C02:exception-in-family", f"inf_retis raised {kind} on a reachable weight matrix")]
+        return fails + [("C02:exception-in-family", f"inf_retis raised {kind} on a reachable weight matrix")]
     try:
         Pf = np.asarray(P, dtype=float)
     except Exception as e:  # noqa: BLE001
@@ -546,9 +551,6 @@ def evaluate_family(ctx, code, cases, label):
         kind, P, cbr, (nrand, dims), note = results[k]
         want = wants[k]
         rep = {"kind": c.get("kind", label), "off": c["off"], "W": c["W"], "locks": c["locks"]}
-        # --- input purity (the state matrix handed to inf_retis is the sampler's live state)
-        if note:
-            ctx.fail("C02:input-modified", note, rep)
         # --- object state: the long-lived object's answer equals a fresh object's answer, bit for bit
         if k % fresh_every == 3 and kind == "ok":
             ctx.hit("object_state:long-lived-vs-fresh")
@@ -1414,6 +1416,18 @@ def _run_core(ctx):
         "<= 5 and for every row-constant case. Reason: fast_glynn_perm cancels catastrophically for dynamic range 1000 "
         "(witness ILL_CONDITIONED in c02.py: 9 plus ensembles, one path (1,..,1), eight paths (1000,1,..,1) -> "
         "AssertionError inside inf_retis; 8 ensembles -> error 5.8e-7); that is rounding, outside the model",
+        "object state / call history is tie-only: the Lean model is a pure function of (offset, W, locks), so "
+        "`one long-lived REPEX_state over many inputs`, `several REPEX_state objects alive at once`, `prob` read "
+        "between mutators (add_traj, swap+lock, pick, pick_traj_ens, pick_lock re-issue, sort_trajstate) and input "
+        "purity of inf_retis/prob are established by comparing the long-lived object with a fresh object, with the "
+        "exact permanent ratios and with the model on the current (|state|, locks); a bare swap() is not an "
+        "invalidation point of the cache in the code (it is always followed by lock()), so `prob` is read after "
+        "swap+lock, not between them; that `prob` returns the cache array itself (no copy) is not claimed either way",
+        "boundary weights: tiny positive weights (5e-324, 2^-1000, 1e-300) only as whole rows or with row-constant "
+        "rows (no products of tiny numbers are formed by the code then), last-bit differences at weight 3.0; these "
+        "are floats, passed to Lean as exact rationals",
+        "a sampler operation that does not return inside an operation history (sort_trajstate after wrong picks) "
+        "abandons that history after 20 s (counted in the histogram); termination is property C05's claim",
         "the Python oracle (exact integer subset-DP permanents) is compared token-for-token with the Lean "
         "specification probMatrix on every case with an idle block <= 4 and on a capped sample of 5..7; for idle blocks "
         "5..8 the Lean permC of the idle block and of one random minor is compared with the oracle's integers",
@@ -1521,7 +1535,23 @@ def _cache_coherence(ctx):
         workers = 2 + k % max(1, n_ens - 2)
         workers = min(workers, n_ens - 1)
         label = f"cache n_ens={n_ens} workers={workers} k={k} ctxseed={ctx.seed}"
-        sim = T.run_history(ctx, n_ens, workers, 25, seed=k % 3, wf=bool(k % 2), rng=random.Random(label), rich_init=True)
+        cwd0 = os.getcwd()
+        try:
+            sim = _bounded(lambda: T.run_history(ctx, n_ens, workers, 25, seed=k % 3, wf=bool(k % 2),
+                                                 rng=random.Random(label), rich_init=True), 20)
+        except _Hang:
+            # a sampler operation (e.g. sort_trajstate on a state reached through wrong picks) does not return:
+            # termination is not this property's claim and P itself is judged elsewhere - abandon the history,
+            # but never hang the check
+            tmp = os.getcwd()
+            os.chdir(cwd0)
+            if tmp.startswith("/var/tmp/vp-repex-"):
+                shutil.rmtree(tmp, ignore_errors=True)
+            ctx.hit("cache_coherence:history-did-not-terminate-abandoned")
+            ctx.extra.setdefault("cache_histories_abandoned", []).append(label)
+            if len(ctx.extra["cache_histories_abandoned"]) >= 3:
+                break
+            continue
         for idx, (tag, d, held) in enumerate(sim.snaps):
             ctx.count(1, branch="cache_coherence")
             if d.get("_prob_stale") not in ("0", None):
